@@ -76,7 +76,7 @@ def _cub(name, d, sizes, per=(0, 0, 0), vert=0, mode='geom', vmax=2, tiers=('qui
     return U(name, 'C13_cubical.cpp', defs, tiers=tiers, weight=weight)
 PROPS['C13'] = dict(
   explanation='Bounded symbolic execution of the real Bitmap_cubical_complex(_periodic_boundary_conditions)_base (clang IR of the headers in /repo) for a table of grid shapes; the queried cell index and every top-cell / vertex value are solver variables. z3 decides on every path: dd=0 with signs alternating along the enumeration, boundary/coboundary are converse and equal the grid geometry recomputed by an independent mixed-radix oracle, incidence numbers are +-1, the cell value is the min over containing top cells (max over vertices), the filtration order is total, monotone and faces-first.',
-  bounds=dict(quick='incidence/geometry clauses (symbolic cell): 1x3, 2x3, 3, 2x2x1, 2x2x2, torus 3x3 and 3x3x3, cylinders 3x2, 2x3, 3x1x2, vertex-input 2x2 and cylinder; value clause (symbolic values 0..2 + symbolic cell): 2x2, 1x3, 2x2 from vertices, cylinder 3x1; order clause: 2x2 (values 0..1), 3 (1-d)', thorough='+ value clause on 2x3, torus 3x3, 2x2x2; order clause 2x2 with values 0..2; float instantiation'),
+  bounds=dict(quick='incidence/geometry clauses (symbolic cell): 1x3, 2x3, 3, 2x2x1, 2x2x2, torus 3x3 and 3x3x3, cylinders 3x2, 2x3, 3x1x2, vertex-input 2x2 and cylinder; value clause (symbolic values 0..2 + symbolic cell): 2x2, 1x3, 2x2 from vertices, cylinder 3x1; order clause: 2x2 (values 0..1), 3 (1-d); order and value clauses with +infinity as the top value (1x2, cylinder 3x1, 2x2)', thorough='+ value clause on 2x3, torus 3x3, 2x2x2; order clause 2x2 with values 0..2; float instantiation'),
   outside=['grids larger than the listed shapes', 'periodic sides shorter than 3', 'NaN values', 'Perseus file constructors (iostream)', 'persistence of the complex (see C02)'],
   units=[_cub('geom_1x3', 2, (1, 3)), _cub('geom_2x3', 2, (2, 3)), _cub('geom_3_1d', 1, (3,)), _cub('geom_2x2x1', 3, (2, 2, 1), weight=5), _cub('geom_2x2x2', 3, (2, 2, 2), weight=8),
          _cub('geom_torus3x3', 2, (3, 3), per=(1, 1, 0), weight=5), _cub('geom_cyl3x2', 2, (3, 2), per=(1, 0, 0)), _cub('geom_cyl2x3', 2, (2, 3), per=(0, 1, 0)), _cub('geom_torus3x3x3', 3, (3, 3, 3), per=(1, 1, 1), weight=12), _cub('geom_cyl3x1x2', 3, (3, 1, 2), per=(1, 0, 0), weight=6),
@@ -142,7 +142,7 @@ for ci, col in enumerate(_COLS):
         _u05.append(_pm('C05_matrix.cpp', 't_%s_%s_m6' % (_FL[fl], col.lower()), col=col, z2=(ci + fl + 1) % 2, flavour=fl, rep=1 if fl == 1 else 0, removable=1 if fl != 0 else 0, m=6, nv=4, extra=['VP_RM=2'] if fl != 0 else [], tiers=['thorough'], weight=30))
 PROPS['C05'] = dict(
   explanation='Bounded symbolic execution of the real Matrix<Options> (Boundary_matrix / RU_matrix / Chain_matrix, clang IR of the headers in /repo) for a table of option sets: the filtration (which simplices, in which order; for Z_5 also a unit scaling every boundary = general cells) and the removed/re-inserted suffix are solver variables; on every path the barcode equals an independent dense reduction over the field and the exposed matrices satisfy their defining identities (R reduced with the pivots of the reduction, R/U factor the boundary matrix, pivot maps, chain columns with distinct leading cells, cycles / boundary onto partner).',
-  bounds=dict(quick='every filtered sub-complex of the triangle with m=4 cells (m=5 for one unit), all 9 column types x {boundary, RU, chain} alternating Z2/Z5, position and identifier indexing with row access and removable columns incl. remove_last of up to 2 cells and re-insertion, Z5 with arbitrary unit coefficients, identifiers with gaps (reused after remove_last) for the three flavours', thorough='m=6 cells of the tetrahedron for every column type and flavour with removals'),
+  bounds=dict(quick='every filtered sub-complex of the triangle with m=4 cells (m=5 for one unit), all 9 column types x {boundary, RU, chain} alternating Z2/Z5, position and identifier indexing with row access and removable columns incl. remove_last of up to 2 cells and re-insertion, Z5 with arbitrary unit coefficients, identifiers with gaps (reused after remove_last) for the three flavours; general cells of dimension > 0 attached with a null boundary (solver-chosen among the cells without cofaces)', thorough='m=6 cells of the tetrahedron for every column type and flavour with removals'),
   outside=['complexes with more cells than the bound', 'characteristics other than 2 and 5', 'the identity clauses for identifiers different from positions (the barcode clause is checked with gapped identifiers)'],
   units=_u05)
 
@@ -180,7 +180,7 @@ for ci, col in enumerate(_COLS):
         _u06.append(_pm('C06_vine.cpp', 't_%s_pos_rm_%s' % (_FL[fl], col.lower()), col=col, flavour=fl, idx=1, vine=1, rows=1 if (fl == 2 and col != 'HEAP') else 0, removable=1, m=5, nv=4, extra=['VP_K=3'], tiers=['thorough'], weight=30, must=('end', 'swap')))
 PROPS['C06'] = dict(
   explanation='Bounded symbolic execution of the real RU_vine_swap / Chain_vine_swap code through Matrix<Options> (clang IR of the headers in /repo): base filtration and a walk of admissible transpositions, removals of maximal cells and insertions are solver variables; after every step the matrix is compared with a matrix freshly built by the same code on the resulting filtration, with an independent dense reduction, and with its defining identities; the boolean returned by a transposition is checked against the two barcodes.',
-  bounds=dict(quick='filtered sub-complexes of the triangle with m=4 cells, walks of k=2 steps (m=5, k=3 for the default column type), RU and chain flavours, all column types with position indexing, identifier indexing, removable columns with remove_maximal_cell and insertions, Z2', thorough='m=5 cells of the tetrahedron, k=3, every column type with removals'),
+  bounds=dict(quick='filtered sub-complexes of the triangle with m=4 cells, walks of k=2 steps (m=5, k=3 for the default column type), RU and chain flavours, all column types with position indexing, identifier indexing, removable columns with remove_maximal_cell and insertions (k=2 and k=3), Z2; walks with insertions interleaved (m=5: 3 cells up front, k=3) with and without announced capacity for INTRUSIVE_SET and VECTOR columns; RU without stored barcode; RU with removable columns on the vector container (remove_last)', thorough='m=5 cells of the tetrahedron, k=3, every column type with removals; RU + VECTOR columns: every filtration of 8 cells of dimension <= 1 on 4 vertices (enumerated) x 2 swaps; RU without barcode m=5 k=3'),
   outside=['walks longer than k', 'matrices without stored barcode (need user comparators; the truthfulness clause needs the barcode)', 'Z_p vine swaps (the library offers vine updates for Z_2 only)'],
   units=_u06)
 
@@ -202,7 +202,7 @@ for fl in (1, 2):
     _u08.append(_pm('C08_repcycles.cpp', 't_rep_%s_tri7' % _FL[fl], flavour=fl, rep=1, m=7, nv=3, tiers=['thorough'], weight=20))
 PROPS['C08'] = dict(
   explanation='Bounded symbolic execution of update_representative_cycles / get_representative_cycle(s) of the RU and chain matrices (clang IR of the headers in /repo) with the filtration (and a remove_last / re-insert prefix) as solver variables; every clause of the statement is asserted on every path with dense GF(2) algebra in the harness: cell dimensions, zero boundary, youngest cell = birth cell, the class is independent of older classes and boundaries at every index of [birth, death), dependent at the death (a boundary for the chain flavour), and the representatives of the alive bars are a homology basis at every index.',
-  bounds=dict(quick='every filtered sub-complex of the triangle with m=5 cells for all column types and both flavours; m=6 cells of the tetrahedron for the default column type; remove_last of up to 2 cells + re-insertion; Z2', thorough='m=7 (triangle), m=8 (tetrahedron) with removals'),
+  bounds=dict(quick='every filtered sub-complex of the triangle with m=5 cells for all column types and both flavours; m=6 cells of the tetrahedron for the default column type; remove_last of up to 2 cells + re-insertion; 11 cells: cone prefix (4 vertices, 3 edges from vertex 3) + 4 solver-chosen cells of the tetrahedron; Z2', thorough='m=7 (triangle), m=8 (tetrahedron) with removals'),
   outside=['Z_p representatives (the Cycle type carries no coefficients)', 'complexes beyond the bounds'],
   units=_u08)
 
@@ -220,7 +220,7 @@ PROPS['C16'] = dict(
 _t17 = ['end', 'add_edge', 'add_edge_without_blockers', 'remove_star', 'contract_edge']
 PROPS['C17'] = dict(
   explanation='Bounded symbolic execution of the real Skeleton_blocker_complex (clang IR of the headers in /repo) through symbolic edit histories (add_edge, add_edge_without_blockers, add_simplex, remove_star of simplices of any dimension, contract_edge under link_condition); after every step contains() on every vertex set, the blocker set (= minimal non-faces with all proper faces present), num_simplices and the simplex enumeration are compared with an abstract-complex oracle; a contraction must equal the image complex and keep the dense GF(2) Betti numbers and the Euler characteristic.',
-  bounds=dict(quick='n=4 vertices, k=3 edits from the empty 1-skeleton and k=2 edits from the full simplex', thorough='n=4, k=4; n=5, k=2'),
+  bounds=dict(quick='n=4 vertices, k=3 edits from the empty 1-skeleton and k=2 edits from the full simplex; n=5: k=2 from the full simplex, and one edit from the flag complex of every graph on 5 vertices', thorough='n=4, k=4; n=5, k=2'),
   outside=['more than 5 vertices', 'histories longer than k', 'geometric (point-carrying) complexes'],
   units=[U('skbl_n4k3', 'C17_skbl.cpp', ['VP_N=4', 'VP_K=3'], weight=6, must_reach=_t17), U('skbl_full_n4k2', 'C17_skbl.cpp', ['VP_N=4', 'VP_K=2', 'VP_START_FULL'], weight=6, must_reach=['end', 'remove_star', 'contract_edge']),
          U('skbl_full_n4k2_kf', 'C17_skbl.cpp', ['VP_N=4', 'VP_K=2', 'VP_START_FULL', 'VP_KF_STAR'], weight=4, must_reach=[], kf='C17-remove-star-sub-blocker'),
@@ -230,7 +230,7 @@ PROPS['C17'] = dict(
 # ------------------------------------------------------------------------------------------------ C20
 PROPS['C20'] = dict(
   explanation='Bounded symbolic execution of the real Permutahedral_representation iterators (vertices, faces, facets, cofaces, cofacets, is_face_of) and of Freudenthal_triangulation::locate_point / barycenter (clang IR of the headers in /repo, Eigen included): the base vertex is symbolic, the ordered set partition ranges over the generated list of all ordered partitions of {0..d} (forked by the solver), the query point over a quarter-integer grid; the face lattice clauses are asserted as vertex-set statements and point location by the exact rational characterisation of the relative interior.',
-  bounds=dict(quick='d=2 (13 ordered partitions) and d=3 (75): all simplices around a symbolic base vertex in [-1,1]^d; is_face_of against a second symbolic simplex (d=2); point location on the grid {-1,-3/4,..,1}^d for d=2,3; d=4 (541 partitions) for the face/coface lattice incl. completeness of coface_range (count of refinements, listed once)', thorough='+ point location d=4'),
+  bounds=dict(quick='d=2 (13 ordered partitions) and d=3 (75): all simplices around a symbolic base vertex in [-1,1]^d; is_face_of against a second symbolic simplex (d=2); point location on the grid {-1,-3/4,..,1}^d for d=2,3, also after change_offset / construction with an offset in {0,1/4,1/2,3/4}^d; d=4 (541 partitions) for the face/coface lattice incl. completeness of coface_range (count of refinements, listed once)', thorough='+ point location d=4'),
   outside=['Coxeter_triangulation and general affine maps (point location goes through Eigen ColPivHouseholderQR::solve on symbolic data)', 'query points off the quarter-integer grid', 'ambient dimension above 4'],
   units=[U('perm_d2', 'C20_coxeter.cpp', ['VP_D=2'], weight=5), U('perm_d3', 'C20_coxeter.cpp', ['VP_D=3', 'VP_NO_SECOND'], weight=10), U('locate_d2', 'C20_coxeter.cpp', ['VP_D=2', 'VP_LOCATE'], weight=4), U('locate_d3', 'C20_coxeter.cpp', ['VP_D=3', 'VP_LOCATE'], weight=8), U('locate_offset_d2', 'C20_coxeter.cpp', ['VP_D=2', 'VP_LOCATE', 'VP_OFFSET'], weight=6), U('locate_offset_d3', 'C20_coxeter.cpp', ['VP_D=3', 'VP_LOCATE', 'VP_OFFSET'], weight=12),
          U('perm_d4', 'C20_coxeter.cpp', ['VP_D=4', 'VP_NO_SECOND'], weight=40), U('locate_d4', 'C20_coxeter.cpp', ['VP_D=4', 'VP_LOCATE'], tiers=['thorough'], weight=30)])
@@ -248,7 +248,7 @@ PROPS['C04'] = dict(
 # ------------------------------------------------------------------------------------------------ C03
 PROPS['C03'] = dict(
   explanation='Bounded symbolic execution of the real Simplex_tree::filtration_simplex_range (sort + comparator), make_filtration_non_decreasing, prune_above_filtration, extend_filtration and decode_extended_filtration (clang IR of the headers in /repo) on symbolic face-closed shapes with symbolic filtration values (ties, non-monotone assignments, NaN and infinities where documented; finite-grid doubles with host IEEE arithmetic for the extended filtration). The schedule/sort independence is reduced to the comparator being a strict total order consistent with values and faces (the contract of std::stable_sort / tbb::parallel_sort is trusted), plus equal sequences for different insertion histories and option sets.',
-  bounds=dict(quick='all face-closed complexes on 3 vertices; values 0..2 (order and monotonisation), + NaN and +-inf thresholds (pruning); extended filtration with vertex values on {0,0.5,..,2}', thorough='4 vertices: full tetrahedron boundary and all shapes with values 0..1'),
+  bounds=dict(quick='all face-closed complexes on 3 vertices; values 0..2 (order and monotonisation), + NaN and +-inf thresholds (pruning); extended filtration with vertex values on {0,0.5,..,2} (cold and warm filtration cache); monotonisation also with an integer Filtration_value option set', thorough='4 vertices: full tetrahedron boundary and all shapes with values 0..1'),
   outside=['real TBB execution / thread schedules (the engine is sequential; covered through the comparator contract)', 'more than 4 vertices', 'Bitmap_cubical_complex::filtration_simplex_range (checked under C13)'],
   units=[U('order_n3', 'C03_filtration.cpp', ['VP_MODE=0', 'VP_N=3', 'VP_VMAX=2'], weight=10), U('monotonise_n3', 'C03_filtration.cpp', ['VP_MODE=1', 'VP_N=3', 'VP_VMAX=2'], weight=6), U('prune_n3', 'C03_filtration.cpp', ['VP_MODE=2', 'VP_N=3', 'VP_VMAX=2'], weight=8),
          U('monotonise_n3_int', 'C03_filtration.cpp', ['VP_MODE=1', 'VP_N=3', 'VP_VMAX=2', 'VP_INTFILT'], weight=6),
@@ -268,7 +268,7 @@ _kf15 = _pm('C15_matrix.cpp', 'mat_ru_moved_from_kf', flavour=1, removable=1, re
 _kf15b = _pm('C15_matrix.cpp', 'mat_ru_zp_moved_from_kf', col='LIST', z2=0, flavour=1, removable=1, rep=1, m=4, extra=['VP_KF_MOVED'], weight=4, must=()); _kf15b['kf'] = 'C15-moved-from-matrix'; _u15.append(_kf15b)
 PROPS['C15'] = dict(
   explanation='Bounded symbolic execution of the real copy/move constructors, assignments (incl. self-assignment onto and from non-empty trees/matrices), swap, serialize/deserialize (clang IR of the headers in /repo): source and target states come from symbolic operation histories, the copy is compared with the source observationally, then both are mutated by further symbolic operations and one is destroyed while the other is re-observed against its own model. The engine\'s byte-level memory model (every load/store must fall inside one live object; exact-size serialisation buffers; use-after-free, double free, invalid free detection) decides the memory-safety clause in this and in every other check.',
-  bounds=dict(quick='Simplex_tree: n=3 labels, histories of 2+1+1 operations, 4 option sets, 6 ways of copying/moving, serialisation with buffer length perturbations -8..+8; matrices: base/boundary/RU/chain flavours with pool allocators, 4-cell filtrations', thorough='n=4 labels'),
+  bounds=dict(quick='Simplex_tree: n=3 labels, histories of 2+1+1 operations, 4 option sets, 6 ways of copying/moving, serialisation with buffer length perturbations -8..+8; matrices: base/boundary/RU/chain flavours with pool allocators, 4-cell filtrations; RU with vine updates copied with a pending row permutation (map and vector container), identities of the copy', thorough='n=4 labels'),
   outside=['text round trip through operator<< / operator>> (libstdc++ iostream/locale is machine code)', 'independent objects used from different threads (the engine is sequential)', 'uninitialised-value tracking (not implemented in the engine)'],
   units=_u15)
 
@@ -285,7 +285,7 @@ PROPS['C02'] = dict(
 # ------------------------------------------------------------------------------------------------ C07
 PROPS['C07'] = dict(
   explanation='Bounded symbolic execution of the real Zigzag_persistence and Filtered_zigzag_persistence (chain matrix with vine swaps, surjective/injective diamonds; clang IR of the headers in /repo) over symbolic arrow sequences (insertion of a cell whose boundary is present, removal of a cell without coface, identity). Per arrow an in-harness oracle (dense GF(2) Betti numbers) fixes whether a class is born or dies, its dimension and index; each streamed finite interval must close an open birth of that dimension at that arrow, the open intervals must be exactly the unclosed births, insertion-only sequences must reproduce the pairing of an independent boundary-matrix reduction, the full interval decomposition (which birth is paired with which death) must equal the one computed by an independent right-filtration algorithm (Carlsson-de Silva) on explicit GF(2) homology bases, and the filtered front-end must report the same intervals translated to monotone symbolic filtration values minus the zero-length ones.',
-  bounds=dict(quick='all admissible sequences of k=6 arrows over the faces of the triangle (with the full decomposition oracle); k=5 with the filtered front-end; k=5 on the tetrahedron; graph zigzags on 4 vertices with 5 edge arrows (full oracle)', thorough='k=8 (triangle), k=7 (tetrahedron), graph zigzags on 4 vertices with 8 edge arrows (full oracle)'),
+  bounds=dict(quick='all admissible sequences of k=6 arrows over the faces of the triangle (with the full decomposition oracle); k=5 with the two filtered front-ends (streaming; storing with ignoreCyclesAboveDim in {-1,0,1}); 4 vertices + triangle boundary fixed, then 3 solver-chosen arrows (filtered); k=5 on the tetrahedron; graph zigzags on 4 vertices with 5 edge arrows (full oracle)', thorough='k=8 (triangle), k=7 (tetrahedron), graph zigzags on 4 vertices with 8 edge arrows (full oracle)'),
   outside=['sequences longer than k', 'column types other than the default of the class'],
   units=[U('zz_tri_k6', 'C07_zigzag.cpp', ['VP_K=6', 'VP_NV=3'], cflags=['-U__SSE2__'], weight=10, must_reach=['end', 'insert', 'remove', 'identity', 'insert-only']),
          U('zz_tri_k5_filtered', 'C07_zigzag.cpp', ['VP_K=5', 'VP_NV=3', 'VP_FILTERED'], cflags=['-U__SSE2__'], weight=10, must_reach=['end', 'insert', 'remove']),
@@ -330,7 +330,7 @@ PROPS['C11'] = dict(
 # ------------------------------------------------------------------------------------------------ C18
 PROPS['C18'] = dict(
   explanation='Bounded symbolic execution of the real Persistence_landscape (construction from a diagram, evaluation, +, -, *, abs, average, integrals, L^p and sup distances, inner product) and Persistence_landscape_on_grid (clang IR of the headers in /repo): the interval endpoints are finite-grid doubles forked to concrete dyadic values by the solver, so the library arithmetic is exact host IEEE arithmetic and every quantity is compared EXACTLY with the definition (k-th largest tent value at every quarter point, Simpson integrals that are exact for piecewise linear/quadratic functions with half-integer breakpoints).',
-  bounds=dict(quick='diagrams of m=2 intervals with births in {0..3} and lengths in {1..3} (repeated, nested, touching), all levels, all quarter points of [-0.5,7.5]; pairs of such diagrams for the algebra/distances; gridded form on [0,7] with 14 cells; m=4 intervals with births in {0,1} and lengths in {2..5} (tied births, nested)', thorough='m=3 intervals'),
+  bounds=dict(quick='diagrams of m=2 intervals with births in {0..3} and lengths in {1..3} (repeated, nested, touching), all levels, all quarter points of [-0.5,7.5]; pairs of such diagrams for the algebra/distances; gridded form on [0,7] with 14 cells; m=4 intervals with births in {0,1} and lengths in {2..5} (tied births, nested); gridded class: sums, differences, negative multiples, sup distance and sup norm (m=2)', thorough='m=3 intervals'),
   outside=['non-dyadic data (comparison would need error bounds)', 'exponents p other than 1, 2, infinity', 'file constructors (iostream)'],
   units=[U('land_pointwise_m2', 'C18_landscape.cpp', ['VP_M=2', 'VP_MODE=0'], weight=5, must_reach=['end', 'pointwise']), U('land_algebra_m2', 'C18_landscape.cpp', ['VP_M=2', 'VP_MODE=1'], weight=10, must_reach=['end', 'algebra']),
          U('land_pointwise_m4_ties', 'C18_landscape.cpp', ['VP_M=4', 'VP_MODE=0', 'VP_NB=2', 'VP_NL=4', 'VP_L0=2'], weight=8, must_reach=['end', 'pointwise']),
@@ -342,7 +342,7 @@ def _c19(name, n, seed, extra=(), tiers=('quick', 'thorough'), weight=5):
     return U(name, 'C19_sparse_rips.cpp', ['VP_N=%d' % n] + list(extra), tiers=tiers, weight=weight, vpsx_args=['--random-device', str(seed)], env={'VP_RANDOM_DEVICE': str(seed)})
 PROPS['C19'] = dict(
   explanation='Bounded symbolic execution of the real Sparse_rips_complex (choose_n_farthest_points_metric, compute_sparse_graph, create_complex with the blocker expansion of Simplex_tree; clang IR of the headers in /repo): the finite metric (grid distances under the triangle inequality) and epsilon are forked to concrete dyadic values by the solver, std::random_device is an environment stub; every simplex must be a Rips simplex not earlier than its diameter, the complex must be face-closed and monotone (also for epsilon >= 1 and finite mini/maxi), and the persistence diagrams of the sparse and the full Rips filtrations (dense Z_2 oracle in the harness) must be within multiplicative bottleneck distance 1/(1-epsilon) in every dimension (brute-force matching).',
-  bounds=dict(quick='n=3 and n=4 points, distances in {1,1.5,2,2.5,3} satisfying the triangle inequality, epsilon in {1/4,1/2,3/4}; validity clause also for epsilon in {1,2} and mini=1.5 / maxi=2; three random-device values (different starting points)', thorough='n=5 with distances in {1,1.5,2}'),
+  bounds=dict(quick='n=3 and n=4 points, distances in {1,1.5,2,2.5,3} satisfying the triangle inequality, epsilon in {1/4,1/2,3/4}; validity clause also for epsilon in {1,2} and mini=1.5 / maxi=2; three random-device values (different starting points); 4 distinct integer points in 0..12 on a line with epsilon in {1/8,1/4,3/8,1/2,3/4} (exact ties)', thorough='n=5 with distances in {1,1.5,2}'),
   outside=['point-cloud input with Euclidean distances of symbolic coordinates', 'epsilon off the listed values', 'more than 5 points'],
   units=[_c19('srips_n3_seed0', 3, 0), _c19('srips_n4_seed0', 4, 0, weight=10), _c19('srips_n4_seed7', 4, 7, weight=10), _c19('srips_n4_seed12345', 4, 12345, weight=10), _c19('srips_n4_validity', 4, 3, extra=['VP_VALIDITY_ONLY', 'VP_GRIDN=3'], weight=10), _c19('srips_n3_validity', 3, 5, extra=['VP_VALIDITY_ONLY'], weight=4),
          _c19('srips_n4_line12', 4, 2, extra=['VP_LINE=12'], weight=40),
